@@ -151,7 +151,12 @@ def histories(spec, cat, gold, model, tier):
             mid.append(Ev(s, M + "Tc", u32(2, 2)))
             mid.append(Ev(s, M + "Tc", u32(3, 3)))
             mid.append(Ev(s, M + "Tc", u32(4, 4)))
-            for tid in (1, 2, 3, 4) + ((5,) if EDGE_LABELS else ()):
+            # labels close to the longest one the emulator takes (511 characters): the line of the .pcf is longer than the label
+            for tyid, n in ((6, 500), (7, 505), (8, 511)):
+                lab = ("%d_%d_" % (pid, n)) + "w" * n
+                mid.append(Ev(s, M + "Yc", b"", 1, u32(tyid) + lab[:n].encode() + b"\0"))
+                mid.append(Ev(s, M + "Tc", u32(tyid, tyid)))
+            for tid in (1, 2, 3, 4, 6, 7, 8) + ((5,) if EDGE_LABELS else ()):
                 pay = u32(tid, 0) if M == "V" else u32(tid)
                 mid.append(Ev(s, M + "Tx", pay))
                 mid.append(Ev(s, M + "Te", pay))
